@@ -445,6 +445,17 @@ def region_of(sc, run, t, j, o, ref_per):
         getters = {tid for tid, n in trace if n == 'env.var_names'}
         if (not trace) or len(getters) >= 2:
             return 'F39'
+    # F39, second site: both threads made the first `environ = os.environ.copy()`; the later rebind drops the other's
+    # in-place `environ.update(secrets / dotenv)`
+    # F39, third manifestation: Env.cleaned_to_env iterates Env.var_names while another thread's reload(env) grows it
+    if sc.family == 'env_new_names' and err == 'RuntimeError':
+        names = {n for _, n in trace}
+        if (not trace) or {'env.cleaned', 'env.names_update'} <= names:
+            return 'F39'
+    if sc.family == 'env_new_names' and err == 'KeyError':
+        loaders_ = {tid for tid, n in trace if n == 'env.load_environ'}
+        if (not trace) or len(loaders_) >= 2:
+            return 'F39'
     return None
 
 
